@@ -3102,6 +3102,7 @@ class Wallet(object):
                 self._key_objects[kb['id']]._balance = kb['balance']
         self.session.bulk_update_mappings(DbKey, key_balance_list)
         self._commit()
+        self.session.expire_all()
         _logger.info("Got balance for %d key(s)" % len(key_balance_list))
         return self._balances
 
